@@ -519,6 +519,38 @@ class SimEnv:
                     if twin is not None:
                         self._set(h, attr, twin)
         self._set(m_cu, 'pkg_resources', VersionStub(self.version))
+        # files opened by name past the module-level `open`: io.open (pathlib uses it) goes to the simulated file
+        # system; numpy's own file readers get a temporary real copy of the image (read only)
+        import io as _io
+        import numpy as _np
+        self._set(_io, 'open', fs.open)
+
+        def _sim_path(p):
+            p = os.fspath(p) if hasattr(p, '__fspath__') else p
+            return p if isinstance(p, str) and p.startswith(storage.PREFIX) else None
+        real_fromfile, real_memmap = _np.fromfile, _np.memmap
+
+        def fromfile(file, *a, **k):
+            sp = _sim_path(file)
+            if sp is not None:
+                if sp not in fs.files:
+                    raise FileNotFoundError(errno.ENOENT, 'No such file or directory', sp)
+                file = fs.real_copy(sp)
+            return real_fromfile(file, *a, **k)
+
+        class memmap(real_memmap):
+            def __new__(cls, filename, dtype=_np.uint8, mode='r+', *a, **k):
+                sp = _sim_path(filename)
+                if sp is not None:
+                    if mode not in ('r', 'c'):
+                        raise core.HarnessError('unsupported stub API: writable numpy.memmap on a simulated file')
+                    if sp not in fs.files:
+                        raise FileNotFoundError(errno.ENOENT, 'No such file or directory', sp)
+                    filename = fs.real_copy(sp)
+                return real_memmap.__new__(real_memmap, filename, dtype, mode, *a, **k)
+        self._set(_np, 'fromfile', fromfile)
+        self._set(_np, 'memmap', memmap)
+        self._fs_for_copies = fs
         # a change that reaches for the standard-library names at call time is simulated too: the
         # module attributes become factories that hand the simulated class to callers inside the
         # library and the real one to everybody else (threading itself, queue, logging ...)
@@ -539,6 +571,10 @@ class SimEnv:
         return self
 
     def __exit__(self, *exc):
+        try:
+            self._fs_for_copies.drop_copies()
+        except Exception:
+            pass
         for cls, old in reversed(self._bases):
             cls.__bases__ = old
         self._bases = []
